@@ -12,6 +12,7 @@ from mc.matrix import MODES, blame, kind_of, leaves_of, mode_name, raising_site,
 from mc.matrix import run as mrun
 from mc.report import Report
 from mc.space import SET_LIKE, from_json, show, to_hint, to_json, unwrap
+from mc.ref_types import passes_any
 from mc.sweep import load_sweep
 
 META = {
@@ -81,7 +82,7 @@ def oracle(ctx):
         sig = {"check": "C04.types", "leaf": show(bts) if len(bts) <= 2 and not isinstance(bts[-1], tuple) else bts[0],
                "exc": cls, "datum_kind": kind_of(bd)}
         if cls == "TypeError" and str(leaf).startswith("unhashable type") and bts[0] in SET_LIKE \
-                and unwrap(bts[1])[0] in ("Any", "object"):
+                and passes_any(bts[1]):
             sig = {"check": "C04.types", "cause": "unhashable_element_into_set_of_Any", "exc": cls}
         if cls == "TypeError" and str(leaf).startswith("unhashable type") and bts[0] in SET_LIKE \
                 and unwrap(bts[1])[0] == "Literal":
